@@ -125,6 +125,19 @@ class Scene:
                 with open(p, "wb") as f:
                     f.write(b"user-edit-%d-" % rng.randrange(10**6) + rel.encode())
                 done.append(["replace_uncached", rel])
+            elif r < 0.33 and "replace_uncached" in kinds and not os.path.islink(p):
+                # a different file of the same size with the old timestamps moved into place (cp -p, rsync -t, a restore):
+                # only the inode tells it from the checked-out one
+                st = os.stat(p)
+                old = open(p, "rb").read()
+                new = bytes((b ^ 0x55) for b in old) if old else b""
+                if new != old:
+                    tmp = p + ".user-tmp"
+                    with open(tmp, "wb") as f:
+                        f.write(new)
+                    os.utime(tmp, ns=(st.st_atime_ns, st.st_mtime_ns))
+                    os.replace(tmp, p)
+                    done.append(["replace_same_size_and_mtime", rel])
             elif r < 0.4 and "replace_cached" in kinds and self.contents:
                 os.remove(p)
                 with open(p, "wb") as f:
@@ -152,10 +165,11 @@ def model_req(scene, before, target_files, cache_oids, cfg):
 
 
 def canon_ws(walked, types):
-    """oid and link kind per path; an empty file has no link kind (hard-linking it creates a fresh file)"""
+    """oid and link kind per path; hard-linking an empty file creates a fresh file, so for an empty file only
+    'symbolic link' versus 'regular file' is observable"""
     out = {}
     for rel, v in walked.items():
-        out[rel] = [v[0], (v[1] if (len(v) < 4 or v[3] > 0) else "any")]
+        out[rel] = [v[0], (v[1] if (len(v) < 4 or v[3] > 0) else ("symlink" if v[1] == "symlink" else "regular"))]
     return out
 
 
@@ -163,7 +177,7 @@ def canon_model_ws(ans, sizes):
     out = {}
     for e in ans["ws"]:
         rel = "/".join(e["key"])
-        out[rel] = [e["oid"], e["link"] if sizes.get(e["oid"], 1) > 0 else "any"]
+        out[rel] = [e["oid"], e["link"] if sizes.get(e["oid"], 1) > 0 else ("symlink" if e["link"] == "symlink" else "regular")]
     return dict(sorted(out.items()))
 
 
@@ -247,6 +261,8 @@ def check_force(ctx, rng):
         ctx.oracle(res2 == {"ok": False} and after2 == after, case, {"why": "a second checkout did not report 'nothing to do'", "second": res2})
         if relink and "ok" in res:
             bad = {k: v[1] for k, v in after.items() if v[3] > 0 and (v[1] != configured or not v[2])}
+            # empty files: a hard link cannot be told from a copy, but a symbolic link can
+            bad.update({k: v[1] for k, v in after.items() if v[3] == 0 and ((v[1] == "symlink") != (configured == "symlink"))})
             ctx.oracle(not bad, case, {"why": "a relinking checkout left files with another link type", "files": bad, "configured": configured})
         ctx.oracle(all(cache_after.get(o) == h for o, h in cache_before.items()), case,
                    {"why": "checkout changed the bytes of a cache object", "changed": [o for o, h in cache_before.items() if cache_after.get(o) != h]})
@@ -299,7 +315,7 @@ def run(ctx):
         "(existing link type, configured link type) matrix, relink on/off, both store classes, with/without state, user edits "
         "between the checkouts; each followed by a second checkout. non-trivial = link type changes or the user edited the workspace"
     )
-    ctx.assumptions = ["reflink is unavailable in the sandbox (copy is what runs)", "hard-linking an empty file creates a fresh empty file: no link kind is compared for empty files"]
+    ctx.assumptions = ["reflink is unavailable in the sandbox (copy is what runs)", "hard-linking an empty file creates a fresh empty file: for empty files only symbolic link versus regular file is compared"]
     relink_table(ctx)
     for _ in range(ctx.n(110, 1200)):
         check_force(ctx, ctx.rng)
